@@ -181,6 +181,12 @@ pub fn many_resources_texts() -> Vec<String> {
     let dests: Vec<String> = (0..260).map(|i| format!("-fprint o{i}")).collect();
     out.push(dests.join(" "));
     out.push("-type f,d,l,b,c,p,s,f,d".into());
+    out.push("-type f,d,f,d,f,d,f,d,f,d -print".into());
+    out.push("-type b,c,d,p,f,l,s,b,c,d,p,f,l,s".into());
+    // grammar errors whose failing token or neighbourhood is non-ASCII
+    for s in ["-name éééééé )", "( -name 日本語", "-name é , ,", "-name ééé -o", ") -name éé (", "-name 😀😀 ! )", "! ! -name ü )"] {
+        out.push(s.to_string());
+    }
     out.push("-type f,f,f,f,f,f,f,f,f,f,f,f,f,f,f,f,f,d -print0".into());
     out.retain(|s| within_bounds(s));
     out
